@@ -62,8 +62,8 @@ CHECKS.update({
 })
 CHECKS.update({
  "C18": ("exploration", "seeded IOSpec histories over one or two models, identity bookkeeping invariants after every step",
-         "new_pandas on models and spaces with colliding names and file locations (incl. hostile creations), plain assignment of the same value to more names, rebinding, deletion in both orders, update_pandas, saving, closing; per model the specs must be exactly the values bound to at least one reference (identity), files unique, get_spec consistent, self-checks pass, rejected creations leave nothing, saved files read back.",
-         "csv PandasData only; real pandas and files on tmpfs; no faults injected.", "6/C18"),
+         "new_pandas / new_module on models and spaces with colliding names and file locations (incl. hostile creations), plain assignment of the same value to more names, rebinding, deletion in both orders, update_pandas / update_module, new_space(refs=...), Space.copy, space deletion, add_bases / remove_bases, saving, closing; per model the specs must be exactly the values bound to at least one reference (identity), files unique, get_spec consistent, self-checks pass, rejected creations leave nothing, saved files read back.",
+         "csv PandasData and ModuleData; real pandas and files on tmpfs; no faults injected.", "6/C18"),
 })
 CHECKS.update({
  "C15": ("exploration", "seeded model histories x seeded query schedules, export-twin (model vs exported package in a modelx-free subprocess)",
